@@ -259,12 +259,11 @@ def run_client(k, srv, seed):
                     env('srv_closed')
                     w.ws_close()
                     return
-                if all(t.done or t.blocked_on for t in (t_app, t_wr, t_rd) if t is not None):
-                    # the client's threads are all blocked or finished: nothing more can be
-                    # sent unless something wakes them, and only this task could
-                    if not any(t is not None and not t.done and t.blocked_on and
-                               t.blocked_on[0] == 'queue' for t in (t_wr,)):
-                        return
+                if all(t.done or t.blocked_on or getattr(t, 'held', False)
+                       for t in (t_app, t_wr, t_rd) if t is not None):
+                    # the client's threads are all blocked, held back or finished: nobody moves
+                    # while this task stays runnable; the driver starts it again if a CLOSE
+                    # frame shows up later
                     return
                 hub.yield_now()
         w.out = []
@@ -289,6 +288,10 @@ def run_client(k, srv, seed):
             hub.spawn(server_disc, name='serverdisc')
         for _ in range(200):
             w.quiesce()
+            if st.done and conn['state'] == 'open' and \
+                    any(o.get('k') == 'wstx' and o.get('f') == 'CLOSE' for o in w.out):
+                st = hub.spawn(server_task, name='server')
+                continue
             nd = hub.next_deadline()
             if nd is None or nd > hub.now:      # only real timers left
                 break
@@ -510,3 +513,255 @@ def replay_ws_schedule(sched, seed=0):
     finally:
         w.close()
 
+
+
+# ---- threaded client, polling transport (EioClientFinePoll) ----------------------------------
+
+POLL_KINDS = ('NOOP', 'MSG', 'PING', 'CLOSE')
+
+
+def _poll_setup(seed, preempt):
+    """The real threaded Client connected on polling only; returns the world once connect() has
+    returned, the write loop waits in queue.get() and the read loop's first GET is in flight."""
+    from . import cworld as CW
+    from . import cdriver as CD
+    w = CW.make_client_world('sync', {}, seed=seed, preempt=False)
+    hub = w.hub
+    hub.no_start_yield = True
+    hub.log_joins = True
+    hub.log_http = True
+    hub.script_kinds = ('http', 'thr')
+    cid = w.app_connect('poll')
+    w.calls[cid]['task'].proc = 'conn'
+    hub.child_proc = {('conn', '_write_loop'): 'wr', ('conn', '_read_loop_polling'): 'rd'}
+    w.quiesce()
+    rid = CD.pending(w, 'GET')
+    w.reply(rid, 200, CW.open_wire('SID1', False, 4000, 4000, 'ok').encode())
+    w.quiesce()
+    cl = w.client
+    if cl.state != 'connected' or CD.pending(w, 'GET') is None:
+        raise RuntimeError('client did not connect on polling')
+    hub.preempt = preempt
+    st = {'rx': 0, 'late': False}
+    trig0 = cl._trigger_event
+
+    def trig(event, *args, **kw):
+        if event == 'message':
+            st['rx'] += 1
+            if any(e.startswith('disc:') for e in w.events):
+                st['late'] = True
+        return trig0(event, *args, **kw)
+    cl._trigger_event = trig
+    return w, st
+
+
+def _poll_answer(w, env, rid, ans, posted, nmsg):
+    """One environment step: the server answers request rid.  ans: list of packet kinds (GET),
+    'ok' (POST), 'bad' or 'fail'.  Returns whether the session is gone afterwards."""
+    from . import cworld as CW
+    rec = w.reqs[rid]
+    gone = False
+    if rec['m'] == 'GET':
+        if ans in ('bad', 'fail'):
+            env('srv_get', '', [ans.upper()])
+        else:
+            env('srv_get', '', list(ans))
+            gone = 'CLOSE' in ans
+    else:
+        env('srv_post', ans, [])
+        if ans == 'ok':
+            posted.extend(rec['body'])
+            gone = 'CLOSE' in rec['body']
+    if ans == 'fail':
+        w.fail(rid)
+    elif ans == 'bad':
+        w.reply(rid, 400, b'')
+    elif rec['m'] == 'POST':
+        w.reply(rid, 200, b'ok')
+    else:
+        parts = []
+        for k in ans:
+            if k == 'MSG':
+                nmsg[0] += 1
+                parts.append(CW.pkt_wire('M%d' % nmsg[0]))
+            else:
+                parts.append(CW.pkt_wire(k))
+        w.reply(rid, 200, '\x1e'.join(parts).encode('utf-8'))
+    return gone
+
+
+def _poll_log(w, hub, cq):
+    log = []
+    for e in hub.primlog:
+        if e['op'] == 'task_done':
+            continue
+        if e['op'] == 'ret':
+            if e['t'] in ('app', 'wr', 'rd'):
+                log.append({'t': e['t'], 'op': 'ret', 'item': '', 'items': []})
+            continue
+        if e['q'] == 'env':
+            log.append({'t': 'env', 'op': e['op'], 'item': e['item'], 'items': e['items']})
+            continue
+        if e['q'] in ('http', 'thr'):
+            if e['t'] is None:
+                raise RuntimeError('HTTP / thread primitive outside the three tasks: %r' % e['op'])
+            log.append({'t': e['t'], 'op': e['op'], 'item': e['item'] or '',
+                        'items': list(e.get('items', []))})
+            continue
+        if e['q'] is not cq:
+            continue
+        if e['t'] is None:
+            raise RuntimeError('queue primitive outside the three tasks: %r' % e['op'])
+        it = e['item']
+        if e['op'] in ('put', 'get', 'put_enter'):
+            it = w._tok_of_pkt(it)
+        log.append({'t': e['t'], 'op': e['op'], 'item': it if it is not None else '', 'items': []})
+    return log
+
+
+def run_client_poll(k, maxpolls, allowfail, seed):
+    """Pre-emptive execution of the real threaded Client on polling: one application thread
+    makes k send() calls and then disconnect(); a server task answers every request in flight,
+    at a random moment, with a random payload (<= 2 packets of NOOP / MSG / PING / CLOSE, at
+    most maxpolls payloads), and - allowfail, or once the session is gone - with an error status
+    or a connection failure.  hub.primlog gets one record per primitive."""
+    from . import cdriver as CD
+    w, cst = _poll_setup(seed, True)
+    facts = {'script': {'k': k, 'maxpolls': maxpolls, 'allowfail': allowfail}, 'schedule_seed': seed}
+    try:
+        hub = w.hub
+        cl = w.client
+        cq = cl.queue
+        hub.primlog = []
+        log0 = hub.primlog
+        posted, nmsg = [], [0]
+        state = {'gone': False, 'polls': 0}
+        rng = hub.rng
+
+        def env(op, item, items):
+            log0.append({'t': 'env', 'op': op, 'item': item, 'items': items, 'q': 'env'})
+
+        def choose(rec):
+            opts = []
+            if rec['m'] == 'GET':
+                if not state['gone'] and state['polls'] < maxpolls:
+                    for _ in range(3):
+                        n = rng.choice((1, 1, 2))
+                        opts.append([rng.choice(POLL_KINDS) for _ in range(n)])
+            elif not state['gone']:
+                opts += ['ok'] * 3
+            if state['gone'] or allowfail:
+                opts += ['bad', 'fail']
+            # nothing left to say: the request is never answered, i.e. it times out
+            return rng.choice(opts) if opts else 'fail'
+
+        def server_task():
+            idle = 0
+            for _ in range(100000):
+                pend = [rid for rid in sorted(w.reqs)
+                        if not w.reqs[rid]['done'] and w.reqs[rid]['reply'] is None]
+                tasks = [t for t in (t_app, t_wr, t_rd) if t is not None]
+                if all(t.done for t in tasks):
+                    return
+                if pend and rng.random() < 0.5:
+                    rid = rng.choice(pend)
+                    ans = choose(w.reqs[rid])
+                    if ans is not None:
+                        if isinstance(ans, list):
+                            state['polls'] += 1
+                        if _poll_answer(w, env, rid, ans, posted, nmsg):
+                            state['gone'] = True
+                        idle = 0
+                elif not pend and all(t.done or t.blocked_on or getattr(t, 'held', False)
+                                      for t in tasks):
+                    idle += 1
+                    if idle > 3:
+                        # nothing in flight and nobody moves while this task is runnable (a
+                        # held-back task is released once every other task has stopped): leave;
+                        # the driver starts a new server task when a request appears
+                        return
+                hub.yield_now()
+        w.out = []
+        acc = []
+        t_app = w.calls[w.app_burst(k, 1, acc, then_disconnect=True)]['task']
+        t_app.proc = 'app'
+        t_wr = next((t for t in hub.tasks if getattr(t, 'proc', None) == 'wr'), None)
+        t_rd = next((t for t in hub.tasks if getattr(t, 'proc', None) == 'rd'), None)
+        hub.spawn(server_task, name='server')
+        for _ in range(50):
+            w.quiesce()
+            if all(t.done for t in (t_app, t_wr, t_rd)):
+                break
+            pend = [rid for rid in w.reqs if not w.reqs[rid]['done'] and w.reqs[rid]['reply'] is None]
+            if pend:
+                hub.spawn(server_task, name='server')
+                continue
+            nd = hub.next_deadline()
+            if nd is None:
+                break
+            hub.now = nd                 # the write loop's queue.get() times out
+            hub.fire_due()
+        log = _poll_log(w, hub, cq)
+        hub.primlog = None
+        final = {'st': cl.state, 'ev': [e[5:] for e in w.events if e.startswith('disc:')],
+                 'posted': posted, 'q': [w._tok_of_pkt(x) for x in cq.items],
+                 'rx': cst['rx'], 'late': cst['late'],
+                 'done': all(t.done for t in (t_app, t_wr, t_rd))}
+        return {'log': log, 'final': final}, facts
+    finally:
+        w.close()
+
+
+def replay_client_poll_schedule(k, sched, seed=0):
+    """spec -> code at L2 for the polling client: drive the real threaded Client under a schedule
+    generated by TLC from EioClientFinePollSim (entries [p, silent, ans]).  The hub runs in
+    scripted mode: a task stops right after every primitive of the send queue, the HTTP layer and
+    Thread.join; the server's answers are the ones TLC chose."""
+    from . import cdriver as CD
+    w, cst = _poll_setup(seed, False)
+    try:
+        hub = w.hub
+        cl = w.client
+        cq = cl.queue
+        hub.primlog = []
+        log0 = hub.primlog
+        hub.scripted = cq
+        w.out = []
+        acc, posted, nmsg = [], [], [0]
+
+        def env(op, item, items):
+            log0.append({'t': 'env', 'op': op, 'item': item, 'items': items, 'q': 'env'})
+        tasks = {'app': w.calls[w.app_burst(k, 1, acc, then_disconnect=True)]['task'],
+                 'wr': next(t for t in hub.tasks if getattr(t, 'proc', None) == 'wr'),
+                 'rd': next(t for t in hub.tasks if getattr(t, 'proc', None) == 'rd')}
+        tasks['app'].proc = 'app'
+        for n, ent in enumerate(sched):
+            p = ent['p']
+            if ent.get('silent'):
+                continue
+            if p in ('srv_get', 'srv_post'):
+                rid = CD.pending(w, 'GET' if p == 'srv_get' else 'POST')
+                if rid is None:
+                    raise RuntimeError('no %s request in flight at schedule entry %d' % (p[4:], n))
+                a = list(ent['ans'])
+                if p == 'srv_post':
+                    ans = a[0]
+                else:
+                    ans = {('BAD',): 'bad', ('FAIL',): 'fail'}.get(tuple(a), a)
+                _poll_answer(w, env, rid, ans, posted, nmsg)
+            else:
+                try:
+                    hub.step(tasks[p])
+                except RuntimeError as e:
+                    raise RuntimeError('%s at schedule entry %d; log so far: %r' % (
+                        e, n, [(x['t'], x['op']) for x in hub.primlog][-8:]))
+        hub.scripted = None
+        leftover = [n for n, t in tasks.items() if not t.done]
+        log = _poll_log(w, hub, cq)
+        hub.primlog = None
+        final = {'st': cl.state, 'ev': [e[5:] for e in w.events if e.startswith('disc:')],
+                 'posted': posted, 'q': [w._tok_of_pkt(x) for x in cq.items],
+                 'rx': cst['rx'], 'late': cst['late'], 'done': not leftover}
+        return {'log': log, 'final': final}, leftover
+    finally:
+        w.close()
